@@ -195,8 +195,11 @@ __CPROVER_ensures(token->type == SCPI_TOKEN_UNKNOWN ==> TOK_REJECT(state, token)
 __CPROVER_ensures(token->type != SCPI_TOKEN_UNKNOWN ==> (TOK_SPAN(state, token) && token->len > 0))
 BYTE_ENS(IS_COMMON_TYPE(token->type) <==> (token->len > 0 && token->ptr[0] == '*'))
 __CPROVER_ensures(IS_QUERY_TYPE(token->type) ==> token->len >= 2)
-/* last byte of a header: mnemonic character, ':', '*' or '?' - in particular never CR or LF */
+/* last byte of a header: mnemonic character, ':', '*' or '?' - never CR or LF.  Enforced only with -DHDR_LASTBYTE
+ * (thorough): the clause makes this job and its callers exceed the quick tier's time/memory. */
+#ifdef HDR_LASTBYTE
 __CPROVER_ensures(token->type != SCPI_TOKEN_UNKNOWN ==> (ISMNE(token->ptr[token->len - 1]) || token->ptr[token->len - 1] == ':' || token->ptr[token->len - 1] == '*' || token->ptr[token->len - 1] == '?'))
+#endif
 BYTE_ENS(IS_QUERY_TYPE(token->type) ==> token->ptr[token->len - 1] == '?')
 BYTE_ENS((token->type == SCPI_TOKEN_COMMON_PROGRAM_HEADER || token->type == SCPI_TOKEN_COMPOUND_PROGRAM_HEADER) ==> (LEX_ATEND(state) || state->pos[0] != '?'))
 BYTE_ENS(token->type == SCPI_TOKEN_UNKNOWN ==> (LEX_ATEND(state) || !(state->pos[0] == '*' || state->pos[0] == ':' || ISALPHA(state->pos[0]))))
